@@ -356,6 +356,7 @@ impl Prop for C19 {
             1 => (any::<u16>(), any::<u16>()).prop_map(|(at, with)| Mutation::Insert { at, with }),
             1 => any::<u16>().prop_map(|at| Mutation::Swap { at }),
             1 => any::<u16>().prop_map(|at| Mutation::GrowTuple { at }),
+            1 => (any::<u16>(), any::<u16>()).prop_map(|(at, with)| Mutation::ReplaceRange { at, with }),
             // a name of the program in another position: a decision variable where a constant is
             // needed, a constant where an iteration variable is bound, ...
             2 => (any::<u16>(), any::<u16>()).prop_map(|(at, with)| Mutation::ReplaceWord { at, with }),
